@@ -30,7 +30,7 @@ func init() {
 				Old: "\tv.uploadsPath = nil\n", New: ""},
 			{Name: "fragment inlining before cycle detection", File: astnormGo, Rule: "C03-R2", Key: "preventFragmentCycles<fragmentSpreadInline",
 				Old: "\tdirectivesIncludeSkip := astvisitor.NewWalkerWithID(8, \"DirectivesIncludeSkip\")\n\tpreventFragmentCycles(&directivesIncludeSkip)\n", New: "\tdirectivesIncludeSkip := astvisitor.NewWalkerWithID(8, \"DirectivesIncludeSkip\")\n"},
-			{Name: "variable extraction after inline-fragment flattening", File: astnormGo, Rule: "C03-R2", Key: "extractVariables<inlineSelectionsFromInlineFragments",
+			{Name: "inline-fragment flattening stage lost", File: astnormGo, Rule: "C03-R2", Key: "inlineSelectionsFromInlineFragments<mergeInlineFragmentSelections",
 				Old: "\tother := astvisitor.NewWalkerWithID(8, \"Other\")\n\tremoveSelfAliasing(&other)\n\tinlineSelectionsFromInlineFragments(&other)\n\to.operationWalkers = append(o.operationWalkers, walkerStage{\n\t\tname:   \"removeSelfAliasing, inlineSelectionsFromInlineFragments\",\n\t\twalker: &other,\n\t})\n",
 				New: ""},
 			{Name: "arguments no longer compared when merging flat fields", File: astFieldGo, Rule: "C03-R3", Key: "ArgumentSetsAreEquals",
